@@ -45,16 +45,21 @@ func TestC01Core(t *testing.T) {
 		cfg := sim.DrawCoreCfg(rt)
 		fs := sim.DrawFateScript(rt, c01FateOpts)
 		app := drawCoreApps(rt, cfg, 40, 200_000)
+		retunes := drawCoreRetunes(rt, cfg)
 		var st sim.CoreStats
 		rapid.SyncTest(rt, func(rt *rapid.T) {
 			s := sim.NewCoreSim(cfg, fs, app)
+			s.Ops = coreRetuneOps(retunes)
 			err := s.Run(fs.EndTime() + 900_000)
 			st = s.Stats
 			if err != nil {
-				rt.Fatalf("C01 (raw core, stream=%v): %v\ncase: %+v", cfg.Stream, err, describeCore(cfg, fs, app))
+				rt.Fatalf("C01 (raw core, stream=%v): %v\ntuning calls in mid-connection: %+v\ncase: %+v", cfg.Stream, err, retunes, describeCore(cfg, fs, app))
 			}
 		})
 		cl := coreClasses(&st)
+		if len(retunes) > 0 {
+			cl = append(cl, "retune_calls_scripted")
+		}
 		if cfg.Stream {
 			cl = append(cl, "stream_mode")
 		} else {
@@ -62,9 +67,10 @@ func TestC01Core(t *testing.T) {
 		}
 		other := st.Duplicated[0]+st.Duplicated[1] > 0 || st.OutOfOrder[0]+st.OutOfOrder[1] > 0 || st.SmallReads > 0
 		nontrivial := st.Retrans[0]+st.Retrans[1] > 0 && other
-		rec.Case(hx.Hash64(cfg, fs.Describe(), app), nontrivial, cl...)
+		rec.Case(hx.Hash64(cfg, fs.Describe(), app, retunes), nontrivial, cl...)
 		if rec.WantSample() {
 			d := describeCore(cfg, fs, app)
+			d["retunes"] = retunes
 			d["stats"] = st
 			rec.Sample(d)
 		}
@@ -77,8 +83,9 @@ func TestC01Session(t *testing.T) {
 		cfg := drawPairCfg(rt, pairGenOpts{})
 		fs := sim.DrawFateScript(rt, c01FateOpts)
 		app := drawSessApps(rt, pairMSS(cfg), 30, 150_000)
+		retunes := drawRetunes(rt, cfg)
 		var d snmpDelta
-		var dup, smallReads, vecWrites int
+		var dup, smallReads, vecWrites, retuned int
 		completed := false
 		rapid.SyncTest(rt, func(rt *rapid.T) {
 			before := kcp.DefaultSnmp.Copy()
@@ -88,7 +95,10 @@ func TestC01Session(t *testing.T) {
 				rt.Fatalf("setup: %v", err)
 			}
 			setPairLinks(s, p, fs)
-			err = p.Run(fs.EndTime()+600_000, false)
+			retuned, err = runPairWithRetunes(p, s, retunes)
+			if err == nil {
+				err = p.Run(fs.EndTime()+600_000, false)
+			}
 			completed = p.Complete()
 			smallReads = p.SmallReads()
 			vecWrites = p.VecWrites
@@ -96,7 +106,7 @@ func TestC01Session(t *testing.T) {
 			p.Finish(nil)
 			d = snmpSince(before)
 			if err != nil {
-				rt.Fatalf("C01 (session): %v\ncase: %+v", err, describePair(cfg, fs, app))
+				rt.Fatalf("C01 (session): %v\ntuning calls in mid-connection: %+v\ncase: %+v", err, retunes, describePair(cfg, fs, app))
 			}
 		})
 		cl := []string{"cipher_" + cfg.Cipher}
@@ -121,13 +131,17 @@ func TestC01Session(t *testing.T) {
 		if vecWrites > 0 {
 			cl = append(cl, "writebuffers_with_several_buffers")
 		}
+		if retuned > 0 {
+			cl = append(cl, "retuned_in_mid_connection")
+		}
 		if completed {
 			cl = append(cl, "completed")
 		}
 		nontrivial := d.Retrans > 0 && (dup > 0 || d.FECRecovered > 0 || smallReads > 0 || d.Repeat > 0)
-		rec.Case(hx.Hash64(describePair(cfg, fs, app)), nontrivial, cl...)
+		rec.Case(hx.Hash64(describePair(cfg, fs, app), retunes), nontrivial, cl...)
 		if rec.WantSample() {
 			dd := describePair(cfg, fs, app)
+			dd["retunes"] = retunes
 			dd["snmp_delta"] = d
 			rec.Sample(dd)
 		}
